@@ -466,6 +466,7 @@ def enum_cases(cls):
         "create_table": (lambda: Q.create_table("x"), lambda q: q.create_table("y")),
         "drop_table": (lambda: Q.drop_table("x"), lambda q: q.drop_table("y")),
         "primary_key": (lambda: Q.create_table("x").columns("a").primary_key("a"), lambda q: q.primary_key("a")),
+        "primary_key_after_empty_call": (lambda: Q.create_table("x").columns("a").primary_key(), lambda q: q.primary_key("a")),
         "for_": (lambda: t.for_(P.SYSTEM_TIME.between(1, 2)), lambda q: q.for_(P.SYSTEM_TIME.between(1, 2))),
         "for_portion": (lambda: t.for_portion(P.SYSTEM_TIME.from_to(1, 2)), lambda q: q.for_portion(P.SYSTEM_TIME.from_to(1, 2))),
         "for_after_portion": (lambda: t.for_portion(P.SYSTEM_TIME.from_to(1, 2)), lambda q: q.for_(P.SYSTEM_TIME.between(1, 2))),
